@@ -33,6 +33,21 @@ check("C20",
       "TLA+ spec (BreedingLoop.tla) model-checked by TLC + TLC trace validation of recorded call traces; spec->code replay of TLC-simulated behaviours",
       "DESIGN.md C20")
 
+check("C17",
+      "TLC model-checks the SUS pointer walk as a state machine in exact scaled-integer arithmetic (all weight vectors of "
+      "<=4 options over {0,1,2,3,5}, k<=6 pointers, offsets o/4 of the pointer distance: in-range walk, floor/ceiling "
+      "counts, termination; the offset-exactly-0 variant yields the design-level counterexample) and the outcross "
+      "exchange search (all 3x2, 2x3, 2x2 tables over 3 symbols: multiset preserved, duplicate count never increases, "
+      "terminates, stops only at 1-exchange local optima). Real executions are validated by TLC (Sampling_Trace): the "
+      "same SUS grid with scripted offsets (pointer-walk equality away from exact ties), real generators with "
+      "wide-magnitude/tied/zero weights and 1-d/2-d sizes, tiled choice balance, axis shuffle slice confinement, and "
+      "outcross runs recorded as one table snapshot per outer iteration (each step must be one improving exchange; "
+      "half of the runs use an adversarial exchange order).",
+      "Proportionality is checked on integer weight vectors (the code receives them times a float scale); offset exactly "
+      "0.0 is a listed known finding; axis_shuffle on 2-d arrays with non-negative axes.",
+      "TLA+ spec (Sampling.tla) model-checked by TLC + scripted-generator replay of the model grid + TLC trace validation",
+      "DESIGN.md C17")
+
 def build():
     checks = []
     for pid in sorted(CHECKS):
